@@ -19,7 +19,9 @@ func genUpstream(t *rapid.T, focus string) []vh.UpstreamAttempt {
 	n := rapid.IntRange(0, 5).Draw(t, "nattempts")
 	var out []vh.UpstreamAttempt
 	for i := 0; i < n; i++ {
-		k := rapid.SampledFrom([]string{"healthy", "refuse", "reset", "reset", "neverack", "late", "wrongid"}).Draw(t, "kind")
+		// "silent" (accepts, never says anything) only differs from "neverack" when the outputs use a shared key: the
+		// client then waits for the handshake; without a key it is one more connection that never acknowledges
+		k := rapid.SampledFrom([]string{"healthy", "refuse", "reset", "reset", "neverack", "late", "wrongid", "silent"}).Draw(t, "kind")
 		a := vh.UpstreamAttempt{Kind: k}
 		switch k {
 		case "reset":
@@ -166,6 +168,7 @@ func genScenario(t *rapid.T, focus string) Scenario {
 	for i := 0; i < nOut; i++ {
 		sc.Modes = append(sc.Modes, rapid.SampledFrom([]string{"Forward", "PackedForward", "CompressedPackedForward"}).Draw(t, "mode"))
 	}
+	sc.Secret = rapid.IntRange(0, 2).Draw(t, "secret") == 0
 	sc.TinyQuota = focus != "C05" && rapid.IntRange(0, 7).Draw(t, "tiny") == 0
 	sc.MemWindow = rapid.SampledFrom([]int{2, 4, 16}).Draw(t, "memWindow")
 	sc.ChunkBytes = rapid.SampledFrom([]int{300, 700, 2000}).Draw(t, "chunkBytes")
@@ -264,6 +267,18 @@ func classify(sc Scenario, o *Outcome) (bool, []string) {
 		add(m.Sum("slogagent_process_output_forward_attempts_total") > m.Sum("slogagent_process_output_forwarded_chunks_total"), "a-send-did-not-complete(blocked mid-write, measured)")
 		add(m.Sum("slogagent_process_output_forward_attempts_total") > 0 && m.Sum("slogagent_process_output_forwarded_chunks_total") == 0, "first-send-blocked-with-nothing-awaiting-ack(measured)")
 	}
+	silent := false
+	for _, g := range sc.Gens {
+		for _, ups := range g.Upstream {
+			for _, a := range ups {
+				if a.Kind == "silent" {
+					silent = true
+				}
+			}
+		}
+	}
+	add(sc.Secret, "shared-key-handshake")
+	add(sc.Secret && silent, "upstream-accepts-but-never-answers-the-handshake")
 	add(sc.TinyQuota, "tiny-quota")
 	add(len(sc.Modes) > 1, "two-outputs")
 	add(sc.KeyHost, "two-key-fields")
